@@ -296,7 +296,7 @@ def _splice_inv(L):
             Implies(L.inserted, And(D >= L.start, NEW == concat(pyslice(P, 0, L.start), N, pyslice(L.V, L.end, D))))]
 
 
-_NEWS = [("fmtstr", FmtT()), ("str", StrT(plain=True))]
+_NEWS = [("fmtstr", FmtT()), ("str", StrT(plain=False))]     # ANY str: the statement has no "free of escape sequences" clause
 _ENDS = [("end", None), ("noend", NoneT)]
 splice = Contract(
     M + "FmtStr.splice", "C09", ["self", "new_str", "start", "end"], kind="method", defaults={"end": None},
@@ -311,7 +311,7 @@ splice = Contract(
 
 append = Contract(
     M + "FmtStr.append", "C09", ["self", "string"], kind="method",
-    shapes=[Shape("fmtstr", dict(self=FmtT(), string=FmtT())), Shape("str", dict(self=FmtT(), string=StrT(plain=True)))],
+    shapes=[Shape("fmtstr", dict(self=FmtT(), string=FmtT())), Shape("str", dict(self=FmtT(), string=StrT(plain=False)))],
     ensures=lambda a, r: [("post.append", cells(r) == concat(cells(a.self), cells(a.string)))],
     result=FmtT())
 
@@ -457,7 +457,7 @@ def _ssl_ensures(a, r):
 setslice = Contract(
     M + "FmtStr.setslice_with_length", "C04", ["self", "startindex", "endindex", "fs", "length"], kind="method",
     shapes=[Shape(n, dict(self=FmtT(), startindex=_I(0), endindex=_I(0), fs=t, length=_I(0)))
-            for n, t in (("fmtstr", FmtT()), ("str", StrT(plain=True)))],
+            for n, t in (("fmtstr", FmtT()), ("str", StrT(plain=False)))],
     requires=lambda a: And(a.startindex <= a.endindex, length(cells(a.self)) <= a.length, a.endindex <= a.length),
     raises={"AssertionError": lambda a: And(length(cells(a.self)) > a.endindex, _ssl_fs_len(a) > a.endindex - a.startindex),
             "ValueError": lambda a: And(length(cells(a.self)) <= a.endindex, a.startindex + _ssl_fs_len(a) > a.length)},
